@@ -536,9 +536,11 @@ class Sim:
     def _on_loop_exception(self, loop: Any, context: Dict[str, Any]) -> None:
         exc = context.get("exception")
         import traceback
-        tbs = "".join(traceback.format_exception(type(exc), exc, exc.__traceback__)[-6:]) if exc is not None else ""
+        tbs = "".join(traceback.format_exception(type(exc), exc, exc.__traceback__)) if exc is not None else ""
+        if len(tbs) > 1700:
+            tbs = tbs[:900] + "\n  [...]\n" + tbs[-800:]      # where it started and where it was raised
         self.net.escapes.append({"t": self.clock.ms(), "where": "loop", "message": context.get("message"), "exc": repr(exc),
-                                 "exc_type": type(exc).__name__ if exc is not None else None, "tb": tbs[-1500:]})
+                                 "exc_type": type(exc).__name__ if exc is not None else None, "tb": tbs})
 
     def __enter__(self) -> "Sim":
         import zeroconf._core as core
